@@ -911,6 +911,64 @@ pub fn long_subject_replace(rep: &mut Report, which: usize, n: usize, seed: u64)
     }
 }
 
+// ------------------------------------------------------------------ loop bounds anywhere between 300 and 10^5
+
+/// x^[i,j] with bounds drawn log-uniformly between 1 and 10^5 (the gaps between the dense small bounds and the
+/// probes next to 2^16): membership of x^k for k around both bounds, alone and followed by another letter
+pub fn loop_bounds_sweep(rep: &mut Report, rng: &mut Rng, pairs: usize, seed: u64) {
+    let draw = |rng: &mut Rng| -> u32 {
+        let magic = [100u32, 128, 500, 512, 1000, 1023, 1024, 1025, 2000, 2048, 4095, 4096, 4097, 5000, 8192, 10_000, 16_384, 20_000, 32_768, 50_000, 100_000];
+        if rng.chance(1, 2) {
+            *rng.pick(&magic)
+        } else {
+            let bits = 7 + rng.below(10) as u32;
+            (1u32 << bits) + rng.below(1u64 << bits) as u32
+        }
+    };
+    for _ in 0..pairs {
+        let (p, q) = (draw(rng), draw(rng));
+        let (i, j) = if rng.chance(1, 4) { (p, p) } else { (p.min(q), p.max(q)) };
+        let unbounded = rng.chance(1, 5);
+        loop_bounds_pair(rep, i, j, unbounded, seed);
+    }
+}
+
+pub fn loop_bounds_pair(rep: &mut Report, i: u32, j: u32, unbounded: bool, seed: u64) {
+    {
+        let case = format!("loop-bounds {} {} {}", i, j, unbounded as u8);
+        let r = guard(|| -> Result<(), String> {
+            let mut m = ReManager::new();
+            let x = m.range(0x61, 0x62);
+            let l = if unbounded { m.mk_loop(x, aws_smt_strings::loop_ranges::LoopRange::infinite(i)) } else { m.smt_loop(x, i, j) };
+            let c = m.char(0x63);
+            let lc = m.concat(l, c);
+            rep.inc("loop_bound_pairs");
+            rep.max("largest_loop_bound_in_the_sweep", j as u64);
+            for k in [i.saturating_sub(1), i, i + 1, (i + j) / 2, j - 1, j, j + 1] {
+                let want = k >= i && (unbounded || k <= j);
+                let w: Vec<u32> = (0..k).map(|t| 0x61 + (t % 2)).collect();
+                rep.inc("loop_bound_membership_answers");
+                let got = m.str_in_re(&sw(&w), l);
+                let mut wc = w.clone();
+                wc.push(0x63);
+                let got2 = m.str_in_re(&sw(&wc), lc);
+                if got != want || got2 != want {
+                    return Err(format!("[a-b]^[{},{}]: str_in_re of a word of length {} = {}, followed by c = {}; expected {}", i, if unbounded { "inf".to_string() } else { j.to_string() }, k, got, got2, want));
+                }
+            }
+            if l.nullable || m.is_empty_re(l) {
+                return Err(format!("[a-b]^[{},{}]: nullable = {}, is_empty_re = {}", i, j, l.nullable, m.is_empty_re(l)));
+            }
+            Ok(())
+        });
+        match r {
+            Ok(Ok(())) => {}
+            Ok(Err(e)) => viol(rep, "member", "loop-bounds", e, seed, &case),
+            Err(msg) => viol(rep, "member-panic", "loop-bounds", format!("panicked: {}", msg), seed, &case),
+        }
+    }
+}
+
 // ------------------------------------------------------------------ depth instead of width
 
 /// Two families nested `depth` levels deep without being wide:
@@ -1027,6 +1085,13 @@ pub fn replay(text: &str, seed: u64, rep: &mut Report) -> bool {
         ["long-replace", k, n] => {
             if let (Ok(k), Ok(n)) = (k.parse::<usize>(), n.parse::<usize>()) {
                 long_subject_replace(rep, k, n, seed);
+                return true;
+            }
+            false
+        }
+        ["loop-bounds", i, j, u] => {
+            if let (Ok(i), Ok(j)) = (i.parse::<u32>(), j.parse::<u32>()) {
+                loop_bounds_pair(rep, i, j, *u == "1", seed);
                 return true;
             }
             false
